@@ -1161,6 +1161,11 @@ impl Interp {
             // the HTTP route turns an absent ttl parameter into `forever`
             spec.ttl = Some(WTtl::Forever);
         }
+        if via_http && content.as_deref().map(|c| c.is_empty()).unwrap_or(true) {
+            // an empty body means "no content" over HTTP (settled before the operation is
+            // recorded as in flight: a crash must find the frame as it was really sent)
+            spec.hash = None;
+        }
         let expect = self.model.append_expect(&spec);
         let is_nul = spec.topic.as_bytes().contains(&0);
         self.in_flight = Some(InFlight::Append(spec.clone()));
@@ -1219,9 +1224,7 @@ impl Interp {
                 }
                 self.model.apply_append(&spec, &w)?;
                 if let (Some(h), Some(c)) = (&spec.hash, &content) {
-                    if !c.is_empty() {
-                        self.contents.entry(h.clone()).or_insert_with(|| c.clone());
-                    }
+                    self.contents.entry(h.clone()).or_insert_with(|| c.clone());
                 }
                 let id = w.id128();
                 if spec.ttl == Some(WTtl::Ephemeral) && spec.topic != "xs.context" {
